@@ -11,3 +11,25 @@ for be in BACKS:
         UNITS.append(Unit(be + '.constructor.' + nm, ['C06', 'C07', 'C03', 'C08', 'C13'], be, Part(SM, [], anchor, nth=nth),
             'void construct(fsm_t* self, int expr)', 'ctor_back.spec.h', defines=['HAS_EXPR=%d' % has_expr],
             xform=back_xform([], refparams=(), members=['m_states', 'm_history'], methods=['set_states', 'fill_states'], rewrites=RW), replay=['sel']))
+
+for be in BACKS:
+    SM = be + '/state_machine.hpp'
+    AS = ['struct add_state']
+    UNITS.append(Unit(be + '.add_state.call', ['C06', 'C07', 'C09', 'C15', 'C13'], be,
+        [Part(SM, AS, 'void operator ( ) ( State const & )', xform=back_xform(['get_state_id', 'at_key', 'create_state_helper'], refparams=(), rewrites=[
+              dict(name='OVL-new-state-helper', pat='new_state_helper < State > ( ) ,', rep='if ( g_is_composite ) { NEW_STATE_COMPOSITE } else if ( g_is_pseudo_exit ) { NEW_STATE_EXIT } ', min=0, max=1),
+              dict(name='OVL-new-state-helper2', pat='this -> new_state_helper < State > ( ) ,', rep='if ( g_is_composite ) { NEW_STATE_COMPOSITE } else if ( g_is_pseudo_exit ) { NEW_STATE_EXIT } ', min=0, max=1),
+              dict(name='SCOPE-set-sm', pat='create_state_helper ( State ) :: set_sm ( self ) ;', rep='create_state_set_sm ( State , self ) ;', min=0, max=1),
+              dict(name='visitor-helper', pat='visitor_helper $$A ;', rep='', min=0, max=1), dict(name='TVAL-id', pat='const int state_id = ( get_state_id ( stt , State ) ) ;', rep='', min=0, max=1)])),
+         Part(SM, AS, 'new_state_helper ( dummy < 0 > = 0 )', xform=back_xform(['at_key'], refparams=(), rewrites=[
+              dict(name='member-call', pat='at_key ( StateType , self -> m_substate_list ) . set_containing_sm ( containing_sm ) ;', rep='sub_set_containing_sm ( at_key ( StateType , self -> m_substate_list ) , containing_sm ) ;', min=0, max=1), dict(name='member-upper', pat='at_key ( StateType , self -> m_substate_list ) . m_upper_fsm = containing_sm ;', rep='set_upper_fsm ( at_key ( StateType , self -> m_substate_list ) , containing_sm ) ;', min=0, max=1)])),
+         Part(SM, AS, 'new_state_helper ( dummy < 2 > = 0 )', xform=back_xform(['at_key'], refparams=(), rewrites=[
+              dict(name='BIND-pf', pat='execute_return ( ContainingSM :: * pf ) $$A = & ContainingSM :: process_event ;', rep='', min=1, max=1),
+              dict(name='BIND', pat='function < $*T > fct = bind ( pf , containing_sm , _1 ) ;', rep='fsm_t * const fct = containing_sm ;', min=1, max=1),
+              dict(name='member-call', pat='at_key ( StateType , self -> m_substate_list ) . set_forward_fct ( fct ) ;', rep='set_forward_fct_bound_to ( at_key ( StateType , self -> m_substate_list ) , fct ) ;', min=0, max=1)]))],
+        'void add_state_call(fsm_t* self, fsm_t* containing_sm, type_t State)', 'ctor_back.spec.h', defines=['UNIT_ADD_STATE=1'],
+        compose='const type_t StateType = State;\n@0', file_scope='static void new_state_composite(fsm_t* self, fsm_t* containing_sm, type_t StateType){@1}\nstatic void new_state_exit(fsm_t* self, fsm_t* containing_sm, type_t StateType){@2}\n#define NEW_STATE_COMPOSITE new_state_composite(self, containing_sm, StateType);\n#define NEW_STATE_EXIT new_state_exit(self, containing_sm, StateType);\n', replay=['sel', 'hist']))
+    UNITS.append(Unit(be + '.set_containing_sm', ['C06', 'C07', 'C13'], be, Part(SM, [], 'void set_containing_sm ( ContainingSM * sm )'),
+        'void set_containing_sm(fsm_t* self, fsm_t* sm)', 'ctor_back.spec.h', defines=['UNIT_SET_CONTAINING=1'],
+        xform=back_xform([], refparams=(), members=['m_is_included', 'm_substate_list'], rewrites=[
+            dict(name='FOREACH-add-state', pat='for_each ( self -> m_substate_list , add_state < ContainingSM > ( self , sm ) ) ;', rep='wire_substates ( self , sm ) ;', min=0, max=1)]), replay=['sel']))
